@@ -1050,14 +1050,15 @@ func matchSelectorToMetric(selector *promParser.VectorSelector, metric string) (
 		var isMatch bool
 		for _, s := range selector.LabelMatchers {
 			if s.Type == l.Type && s.Name == l.Name && s.Value == l.Value {
-				return true, true
+				isMatch = true
+				break
 			}
 		}
 		if !isMatch {
 			return false, true
 		}
 	}
-	return false, true
+	return len(m) > 0, true
 }
 
 func parseRuleSet(s string) (matcher, key, value string) {
